@@ -6,9 +6,9 @@ SPEC_MODE = "spec"
 KEEP_PREFIX = 0
 SIZES = {"quick": 6000, "thorough": 100000}
 BATCH = 4000
-EXTRA_MODULES = ("Sentinel.Lemmas.Chain",)
+EXTRA_MODULES = ("Sentinel.Lemmas.Chain", "Sentinel.Lemmas.ChainSim")
 RULE = ("1-4 real base.SlotChain objects per case assembled by Add*Slot from 0-9 (6 % of chains: 13-48) recording slots per kind, order values drawn from a "
-        "small colliding pool incl. 0 and 2^32-1; rule slots pass / return nil / ShouldWait / panic / block (fresh result, pooled "
+        "small colliding pool incl. 0 and 2^32-1 (35 % of chains additionally get order 0 / MaxUint32 / MaxUint32-1 slots added to non-empty buckets, 35 % a ShouldWait(0 or >0) rule slot placed before or on the order of a blocking one); rule slots pass / return nil / ShouldWait / panic / block (fresh result, pooled "
         "ctx.RuleCheckResult, slot-owned reused result) with block types 0-255; prepare and rule slots may register exit handlers "
         "(ok / error / panic); stat slots may panic in OnEntryPassed / OnEntryBlocked / OnCompleted; then 3-25 api.Entry calls "
         "with overlapping lifetimes, caller-registered exit handlers, exits in shuffled order incl. double exits, slots added to "
@@ -43,7 +43,7 @@ def gen_slot(rng, kind, sid, pool, prof):
         elif r < prof["block"] + prof["rpanic"]:
             beh = "panic"
         else:
-            beh = rng.choice(["pass", "pass", "nil", "nil", "wait"])
+            beh = rng.choice(["pass", "pass", "nil", "nil", "wait", "wait0"])
         return f"r:{sid}:{order}:{beh}{hook}"
     r = rng.random()
     if r < prof["spanic"]:
@@ -93,6 +93,27 @@ def gen_case(rng, cid):
             k = rng.randint(0, min(len(slots), 3))
         ops.append(("chain " + name + " " + " ".join(slots[:k])).strip())
         ops += [f"add {name} {x}" for x in slots[k:]]
+        # regular boundary slices (never left to luck):
+        MAXO = 4294967295
+        if rng.random() < 0.35:
+            # Order() 0 and math.MaxUint32 added to buckets that already hold slots, also colliding with themselves;
+            # a MaxUint32 rule slot that blocks must still lose against any earlier blocker (order+1 wraps to 0)
+            for kind in rng.sample("prs", rng.randint(1, 3)):
+                if not any(x.startswith(kind + ":") for x in slots):
+                    ops.append(f"add {name} {gen_slot(rng, kind, fresh(), [rng.choice([1, 7, MAXO - 1])], prof)}")
+                for o in rng.sample([MAXO, MAXO, 0, 0, MAXO - 1, 1], rng.randint(1, 4)):
+                    x = gen_slot(rng, kind, fresh(), [o], dict(prof, block=0.7) if kind == "r" else prof)
+                    f = x.split(":"); f[2] = str(o)
+                    ops.append(f"add {name} " + ":".join(f))
+        if rng.random() < 0.35:
+            # a rule slot returning ShouldWait (0 / >0) ordered before (or colliding with) a blocking one: the wait result
+            # must not end the rule phase
+            lo = rng.choice([0, 0, 1, MAXO])
+            hi = rng.choice([lo, lo, MAXO, rng.randint(lo, MAXO)])
+            w = [f"r:{fresh()}:{lo}:{rng.choice(['wait', 'wait0'])}" for _ in range(rng.randint(1, 2))]
+            b = f"r:{fresh()}:{hi}:{rng.choice(['bf', 'bc', 'bo'])}{rng.choice([1, 2, 3, 4, 5])}"
+            seq = w + [b] if rng.random() < 0.7 or lo != hi else [b] + w
+            ops += [f"add {name} {x}" for x in seq]
         chains.append((name, pool))
     live, blocked, eid = [], [], 0
     for _ in range(rng.randint(3, 25)):
